@@ -2,5 +2,6 @@ INIT TInit
 NEXT TNext
 CONSTRAINT MaxL
 INVARIANT AtMostOncePerUse ControlFromRuleText ResultsWellFormed
+PROPERTY LogAppendOnly ErrorsOnlyUnwind StackDiscipline HistoryGrows RetConsumed
 POSTCONDITION Accepted
 CHECK_DEADLOCK FALSE
